@@ -214,15 +214,105 @@ def normalize_fn(path):
     return out
 
 
+# ------------------------------------------------------------------ the tail of `_do` and the `response=` of each API method
+
+def do_tail(path, tag):
+    """Lean definition `<tag>Post (response : Nat) (ret : List PyItem) : Result`: what `_do` hands back once the wait is over
+    (async: `ret = await fut` returned the list; sync: `event.wait(timeout)` returned and `ret` is the shared list)"""
+    tree = ast.parse(open(path).read())
+    fn = find_method(tree, "Miniconf", "_do")
+    a = fn.args
+    kw = {k.arg: src(d) for k, d in zip(a.kwonlyargs, a.kw_defaults)}
+    want_kw = {"response": "1"} if tag == "async" else {"response": "1", "timeout": "None"}
+    if [x.arg for x in a.args] != ["self", "path"] or kw != want_kw or a.kwarg is None or a.kwarg.arg != "kwargs":
+        raise Unsupported(f"{tag} _do: signature {src(a)}")
+    body = [s for s in fn.body if not is_log(s)]
+    if not body or src(body[0]) != "response = int(response)":
+        raise Unsupported(f"{tag} _do: `response = int(response)` expected first")
+    if src(body[-1]) != "return None" or not (isinstance(body[-2], ast.If) and src(body[-2].test) == "response" and not body[-2].orelse):
+        raise Unsupported(f"{tag} _do: `if response: <wait and post-process>` then `return None` expected at the end")
+    tail = body[-2].body
+    wait = "ret = await fut" if tag == "async" else "event.wait(timeout)"
+    if src(tail[0]) != wait:
+        raise Unsupported(f"{tag} _do: the wait is `{src(tail[0])}`, expected `{wait}`")
+
+    def test(t):
+        t_ = src(t)
+        if t_ == "response == 1":
+            return "response = 1"
+        if t_ == "len(ret) != 1":
+            return "ret.length ≠ 1"
+        if t_ == "len(ret) == 1":
+            return "ret.length = 1"
+        raise Unsupported(f"{tag} _do: condition `{t_}`")
+
+    def stmts(ss, ind):
+        pad = "  " * ind
+        if not ss:
+            raise Unsupported(f"{tag} _do: control reaches the end of the post-processing")
+        s0, rest = ss[0], ss[1:]
+        t = src(s0)
+        if is_log(s0):
+            return stmts(rest, ind)
+        if isinstance(s0, ast.If) and not s0.orelse and src(s0.test) == "len(ret) == 1 and isinstance(ret[0], MiniconfException)" \
+                and [src(x) for x in s0.body] == ["raise ret[0]"]:
+            return [f"{pad}match ret with", f"{pad}| [.exc c m] => .miniconfExc c (.inr m)", f"{pad}| _ =>"] + stmts(rest, ind + 1)
+        if isinstance(s0, ast.If) and not s0.orelse:
+            return [f"{pad}if {test(s0.test)} then"] + stmts(s0.body + rest, ind + 1) + [f"{pad}else"] + stmts(rest, ind + 1)
+        if t == "raise MiniconfException('Not a leaf', ret)":
+            return [f"{pad}notLeaf ret"]
+        if t == "return ret[0]":
+            return [f"{pad}first ret"]
+        if t == "assert ret":
+            return [f"{pad}if ret.isEmpty then .assertionError else"] + stmts(rest, ind + 1)
+        if t == "return ret":
+            return [f"{pad}whole ret"]
+        raise Unsupported(f"{tag} _do: statement `{t}`")
+    lines = stmts(tail[1:], 2)
+    return [f"/-- the tail of `Miniconf._do` of {tag if tag == 'sync' else 'async_'}.py after the wait; `response = 0`: nothing is awaited, `None` -/",
+            f"def {tag}Post (response : Nat) (ret : List PyItem) : Result :=",
+            "  if response ≠ 0 then"] + lines + ["  else .none_", ""]
+
+
+def response_of(path, tag):
+    """the `response=` each public request method passes to `_do` (int(True) = 1)"""
+    tree = ast.parse(open(path).read())
+    do = find_method(tree, "Miniconf", "_do")
+    default = {k.arg: d for k, d in zip(do.args.kwonlyargs, do.args.kw_defaults)}["response"]
+    out = {}
+    for name in ("get", "set", "list", "clear", "dump"):
+        fn = find_method(tree, "Miniconf", name)
+        calls = [n for n in ast.walk(fn) if isinstance(n, ast.Call) and src(n.func) == "self._do"]
+        if len(calls) != 1:
+            raise Unsupported(f"{tag} {name}(): {len(calls)} calls of self._do")
+        kws = {k.arg: k.value for k in calls[0].keywords if k.arg}
+        v = kws.get("response", default)
+        if isinstance(v, ast.Name) and v.id == "response":
+            names = [x.arg for x in fn.args.args]
+            defs = fn.args.defaults
+            dmap = dict(zip(names[len(names) - len(defs):], defs))
+            v = dmap.get("response")
+        if not (isinstance(v, ast.Constant) and isinstance(v.value, (int, bool))):
+            raise Unsupported(f"{tag} {name}(): response= is not a constant")
+        out[name] = int(v.value)
+        if [src(x) for x in calls[0].args] != ["path"]:
+            raise Unsupported(f"{tag} {name}(): _do is not called with the path")
+    return [f"/-- `response=` of the public request methods of {tag if tag == 'sync' else 'async_'}.py -/",
+            f"def {tag}ResponseOf : Kind → Nat"] + [f"  | .{k} => {v}" for k, v in out.items()] + [""]
+
+
 def generate(async_py, sync_py, common_py):
     out = ["-- GENERATED by extract/gen_py.py from py/miniconf-mqtt/miniconf/{async_,sync,common}.py — do not edit.",
            "import MiniconfVerif.Model.PyTable",
-           "namespace MiniconfVerif.Gen.Py", "open MiniconfVerif.PyTable MiniconfVerif.PathIter", ""]
+           "namespace MiniconfVerif.Gen.Py", "open MiniconfVerif.PyTable MiniconfVerif.PathIter MiniconfVerif.PyClient", ""]
     for tag, path in (("async", async_py), ("sync", sync_py)):
         key, branches, otherwise = dispatch_table(path, tag)
         out.append(f"/-- `Miniconf._dispatch` of {tag if tag == 'sync' else 'async_'}.py as a decision table -/")
         out += lean_table(f"{tag}Table", key, branches, otherwise)
     out += normalize_fn(common_py)
+    for tag, path in (("async", async_py), ("sync", sync_py)):
+        out += do_tail(path, tag)
+        out += response_of(path, tag)
     out.append("end MiniconfVerif.Gen.Py")
     return "\n".join(out) + "\n"
 
